@@ -124,7 +124,7 @@ def get_harness(build, variant="plain", extra_flags=""):
         except Exception as e:
             raise BuildError("gen_api failed on the current mpir.h: %s" % e)
         seen = {}
-        for sfile in srcs:
+        for sfile in [x for x in srcs if os.path.basename(x).startswith('ops_')]:
             for m in re.finditer(r'(?:BOTH\s*\(|\{)\s*"([@A-Za-z0-9_?]+)"\s*,', open(sfile).read()):
                 if m.group(1) != "@reset" and seen.setdefault(m.group(1), sfile) != sfile:
                     raise BuildError("op name %s is registered by both %s and %s" % (m.group(1), os.path.basename(seen[m.group(1)]), os.path.basename(sfile)))
